@@ -1640,3 +1640,44 @@ func oracleNoDuplicateData(o *e2eOutcome, v vfn) {
 		}
 	}
 }
+
+// oracleResumedPrev (C07 / C10): a file that a restarted sender RESUMES (queued as a
+// recovered file with bytes to send) is announced with the predecessor it had announced
+// before the restart - the ordering chain continues from the files handled before the crash.
+func oracleResumedPrev(o *e2eOutcome, v vfn) {
+	type key struct{ name, hash string }
+	lastPrev := map[int]map[key]string{} // generation -> (name, hash) -> predecessor announced in its data parts
+	for _, q := range o.reqs {
+		if q.Class != "data" {
+			continue
+		}
+		for _, p := range q.Parts {
+			if lastPrev[q.Gen] == nil {
+				lastPrev[q.Gen] = map[key]string{}
+			}
+			k := key{p.Name, p.Hash}
+			if _, ok := lastPrev[q.Gen][k]; !ok {
+				lastPrev[q.Gen][k] = p.Prev // the first announcement of that generation
+			}
+		}
+	}
+	for _, e := range o.events {
+		if e.Kind != "q_push" || e.S != "recovered" || e.Gen < 2 || e.A <= 0 {
+			continue
+		}
+		for k, now := range lastPrev[e.Gen] {
+			if k.name != e.Name {
+				continue
+			}
+			before, ok := lastPrev[e.Gen-1][k]
+			if !ok || before == "" || before == now {
+				continue
+			}
+			if tag := o.w.tagOf(k.name); tag == nil || tag.Order == sts.OrderNone {
+				continue
+			}
+			v("C07", "ordering-chain-continues", "resumed-file-changed-predecessor", fmt.Sprintf("%s (hash %s) announced predecessor %q before the restart; sender instance %d resumes it announcing %q", k.name, k.hash, before, e.Gen, now))
+			return
+		}
+	}
+}
